@@ -673,3 +673,18 @@ Definition startup_case_ok (c : list (N * N) * N) : bool :=
 (* the property on the observation: a start on a good history file comes back with it *)
 Definition startup_obs_violates (c : list (N * N) * N) : bool :=
   existsb (fun nc => (fst nc =? 0) && (snd nc =? 0)) (fst c) && negb (snd c =? 0).
+
+(* the property on the observations of a recorder history: a save and restart (RReload) must come
+   back with the entries of the state BEFORE it that are not older than the retention, same order.
+   The state before is taken from the observations themselves (the last dump, plus what was
+   recorded since), so that an earlier deviation is not blamed on the reload. *)
+Fixpoint robs_violation (s : rstate) (ops : list (rop * robs)) : bool :=
+  match ops with
+  | [] => false
+  | (o, ob) :: r =>
+      let s' := rstep s o in
+      match ob with
+      | ODump d => (match o with RReload _ => negb (dump_matches d s') | _ => false end) || robs_violation d r
+      | _ => robs_violation s' r
+      end
+  end.
